@@ -2,6 +2,64 @@
 exact Rat), theorems `Props/C18.lean` (proved for every linearly ordered commutative ring / field, instantiated at the
 two run-time types)."""
 
+import json
+from concurrent.futures import ThreadPoolExecutor
+
+
+def _oracle(ctx, area, n, label):
+    """Like ctx.impl_oracle, but the hand-written corpus lines of the area run first, the work is spread over the
+    cores, the harness' `ok <tags>` answers are counted, and a replay of this area is re-run."""
+    if "harness" not in ctx.harness_bin:
+        return
+    if ctx.replay:
+        rep = json.load(open(ctx.replay))
+        if rep.get("area") != area:
+            return
+        outs = ctx.run_impl(area, rep["ops"]) or []
+        ctx.evals += len(rep["ops"])
+        for l, o in zip(rep["ops"], outs):
+            print("replay: %s -> %s" % (l[:200], o[:400]))
+            if not o.startswith("ok"):
+                ctx.violations.append({"kind": "impl-oracle", "what": "replay still fails: " + o[:200],
+                                       "replay": ctx.replay, "concrete": True})
+        return
+    total = n[ctx.tier] if isinstance(n, dict) else n
+    lines = ctx.corpus(area) + ctx.gen(area, ctx.seed * 7919 + 17, total)
+    k = 14
+    chunks = [lines[i::k] for i in range(k)]
+    with ThreadPoolExecutor(max_workers=k) as ex:
+        res = list(ex.map(lambda c: ctx.run_impl(area, c) if c else [], chunks))
+    if any(r is None for r in res):
+        return
+    lines = [l for c in chunks for l in c]
+    outs = [o for r in res for o in r]
+    ctx.rules.append("area %s (%s): implementation-side oracle, no Lean model; counted separately (oracle_%s, "
+                     "oracle_%s_<tag>)" % (area, label, area, area))
+    bad = 0
+    key = "oracle_" + area
+    for l, o in zip(lines, outs):
+        ctx.extra[key] = ctx.extra.get(key, 0) + 1
+        kind = key + "_" + l.split(" ", 1)[0]
+        ctx.extra[kind] = ctx.extra.get(kind, 0) + 1
+        if o.startswith("ok"):
+            for t in o.split()[1:]:
+                ctx.extra[key + "_" + t] = ctx.extra.get(key + "_" + t, 0) + 1
+            if len(ctx.samples) < 16 and ctx.extra[key] % 50000 == 1:
+                ctx.samples.append({"area": area, "op": l[:200], "oracle": o[:200]})
+            continue
+        if o == "skipped-after-crash":
+            continue
+        known = ctx._known_match(area, l, [l])
+        if known:
+            ctx.known_hits.append(known)
+            continue
+        bad += 1
+        if bad <= 3:
+            rep = {"property": ctx.id, "kind": "impl-oracle", "area": area, "harness": "harness", "ops": [l],
+                   "impl_outputs": [o], "concrete_failing_input": True, "note": label}
+            ctx.violations.append({"kind": "impl-oracle", "what": "%s: %s on `%s`" % (area, o[:400], l[:200]),
+                                   "replay": ctx._write_replay(rep), "concrete": True})
+
 
 def run(ctx):
     ctx.modelled += [
@@ -15,7 +73,23 @@ def run(ctx):
         "Contour.Bounds starts its min/max loop at the first vertex instead of at +/-MaxFloat64 (same result for finite "
         "coordinates)",
     ]
-    ctx.assumptions += ["float rounding and integer overflow are not covered by the theorems (exact arithmetic)"]
+    ctx.assumptions += [
+        "float rounding and integer overflow are not covered by the theorems: the Lean model computes in exact "
+        "arithmetic (Int, Rat) and the model-vs-code streams only use inputs on which every float operation is exact",
+        "the evidence for the 'floating-point coordinates' clause under rounding is the implementation-side oracle "
+        "area `floatspec` (float64 and float32 rectangles with non-dyadic coordinates, tiny/large magnitudes, zero and "
+        "negative sizes): Contains <=> non-empty and the four extreme representable points of b are In a; Intersects "
+        "<=> the candidate point (max lefts, max tops) is In both; Intersect is the zero Rect exactly when there is no "
+        "common point and otherwise starts exactly at the candidate point; Union returns the other operand exactly "
+        "for an empty operand and otherwise starts exactly at (min lefts, min tops); the far edges X+Width, "
+        "Y+Height of Intersect/Union equal min/max of the operands' far edges only up to the rounding of the "
+        "recomputed size (|difference| <= one ulp of the largest of |X|, |size|, |edge|; counted as "
+        "oracle_floatspec_far-rounded, and oracle_floatspec_union-short when the union's rounded far edge ends below "
+        "an operand's, so that the operand's last representable point is not In the union — inherent to the "
+        "(X, Y, Width, Height) representation, not alarmed on); rectangles whose positive size is absorbed "
+        "(fl(X+Width) == X: non-Empty but without representable point) are skipped and counted "
+        "(oracle_floatspec_absorbed)",
+    ]
     ctx.lean(props=["Props.C18"], drivers=["drv_c18"])
     ctx.harness("./cmd/c18")
     tg = lambda l, o: " ".join(l.split()[:2])
@@ -28,3 +102,6 @@ def run(ctx):
              theorem=th % "contour_contains_crossing / evenodd_spec / bounds_encloses / transform_maps_vertices")
     ctx.impl_oracle("rotate", n={"quick": 20000, "thorough": 400000},
                     label="rotation law with rounding sin/cos products, tolerance 16 ulp of the largest term")
+    _oracle(ctx, "floatspec", {"quick": 300000, "thorough": 6000000},
+            "point-set specifications of Contains/Intersects/Intersect/Union on the extreme representable points of "
+            "non-dyadic float64/float32 rectangles")
